@@ -287,6 +287,12 @@ fn is_reference(schema: &Value) -> bool {
 }
 
 fn payload_kind(schema: &Value, defs: &Defs) -> &'static str {
+    // a payload given by reference is ONE item (a newtype variant holding the
+    // referenced type), whatever the referenced type is; only inline objects and
+    // inline tuples become struct / tuple variants
+    if is_reference(schema) {
+        return "item";
+    }
     let s = deref(schema, defs, 0);
     match s.get("type") {
         Some(Value::String(t)) if t == "object" && s.get("properties").is_some() => "struct",
